@@ -77,10 +77,18 @@ def fiin_case(ctx, rng, lens, maxfile):
     d = ctx.path("fset")
     os.makedirs(d, exist_ok=True)
     files = []
+    samename = False
     for n in lens:
         name = rand_name(rng, used)
         data = rng.randbytes(n)
         sub = rng.choice(["", "", "+sub", "+a/+b"])
+        if files and rng.random() < 0.12:
+            # the same base name again, in another directory (boot/ffxiv.ver, game/ffxiv.ver ...): every file gets its own record
+            prev = rng.choice(files)
+            others = [x for x in ("", "+sub", "+a/+b", "+c") if not os.path.exists(os.path.join(d, x, prev[1]))]
+            if others:
+                name, sub = prev[1], rng.choice(others)
+                samename = True
         p = os.path.join(d, sub, name)
         os.makedirs(os.path.dirname(p), exist_ok=True)
         with open(p, "wb") as f:
@@ -89,7 +97,7 @@ def fiin_case(ctx, rng, lens, maxfile):
     total = sum(len(x[2]) for x in files)
     out = ctx.path("set.fiin")
     key = digest([(n, hashlib.sha1(dt).hexdigest()) for _, n, dt in files])
-    ctx.case(key, len(files) >= 1, ["fiin", "fiin-files:%s" % bucket(len(files))] + ["fiin-mod64:%d" % (len(x[2]) % 64) for x in files[:8]],
+    ctx.case(key, len(files) >= 1, ["fiin", "fiin-files:%s" % bucket(len(files))] + (["fiin-same-base-name-twice"] if samename else []) + ["fiin-mod64:%d" % (len(x[2]) % 64) for x in files[:8]],
              sample=dict(files=[(n, len(dt)) for _, n, dt in files[:3]]))
     rec = ctx.call("fiin.new", out, *[p for p, _, _ in files], input_bytes=total)
     ctx.check_mon(rec, total, files=[p for p, _, _ in files[:3]])
@@ -181,6 +189,20 @@ def plist_case(ctx, rng):
             hashes=["%040x" % rng.getrandbits(160) for _ in range(rng.randint(1, 5))],
             ua=rng.choice([0, 7, -1, 2 ** 31 - 1]), ub=rng.choice([0, 8, -2 ** 31]),
         ))
+    # a list may name the same patch more than once, or rows that differ in a single field
+    if ents and rng.random() < 0.25:
+        for _ in range(rng.choice([1, 1, 3])):
+            src = dict(rng.choice(ents))
+            if rng.random() < 0.5:
+                k = rng.choice(["length", "size_on_disk", "version"])
+                src[k] = (src[k] + 1 if src[k] < 2 ** 62 else src[k] - 1) if k != "version" else src[k] + "a"     # sizes stay within 63 bits
+            if budget - src["length"] >= 0:
+                budget -= src["length"]
+                ents.insert(rng.randrange(len(ents) + 1), src)
+        n = len(ents)
+        dupes = True
+    else:
+        dupes = False
     pid = rng.choice(["477D80B1_38BC_41d4_8B48_5273ADB89CAC", sword(rng, 1, 40)])
     loc = rng.choice(["ffxivpatch/2b5cbc63/metainfo/D2023.04.28.0000.0001.http", sword(rng, 0, 60)])
     spec = pid.encode().hex() + "\n" + (loc.encode().hex() or "") + "\n"
@@ -190,7 +212,7 @@ def plist_case(ctx, rng):
     sf = ctx.write("pl.spec", spec.encode())
     out = ctx.path("pl.wire")
     total = sum(e["length"] for e in ents)
-    ctx.case(digest(kind, repr(ents)), n >= 1, ["plist-" + kind, "plist-n:%s" % bucket(n), "plist-total:%s" % ("big" if total >= 2 ** 32 else "small")],
+    ctx.case(digest(kind, repr(ents)), n >= 1, ["plist-" + kind, "plist-n:%s" % bucket(n), "plist-total:%s" % ("big" if total >= 2 ** 32 else "small")] + (["plist-repeated-rows"] if dupes else []),
              sample=dict(kind=kind, entries=n, total=total, first=ents[0] if ents else None))
     rec = ctx.call("plist.to_string", kind, sf, out, input_bytes=len(spec))
     ctx.check_mon(rec, len(spec), files=[sf])
